@@ -53,6 +53,12 @@ theorem v1_hires_absent_eq (a b c e : Bool) : v1_hires_absent a b c e = ((((!a) 
 theorem v1_overview_loop_iff (i n : Nat) : v1_overview_loop i n = true ↔ i < n := by
   unfold v1_overview_loop; simp only [decide_eq_true_eq]; omega
 
+/-! ### track_utils.hpp: the "no extents" test must cover `qn == 0` (the divisor) -/
+theorem util_ovw_zero_iff (n : Nat) (qn : Int) (r : F64.Bits) : util_ovw_zero n qn r = true ↔ (n = 0 ∨ qn = 0) := by
+  unfold util_ovw_zero; simp only [Bool.or_eq_true, decide_eq_true_eq]; omega
+theorem util_hires_zero_iff (n : Nat) (qn : Int) (r : F64.Bits) : util_hires_zero n qn r = true ↔ (n = 0 ∨ qn = 0) := by
+  unfold util_hires_zero; simp only [Bool.or_eq_true, decide_eq_true_eq]; omega
+
 /-! ### the slot range tests: for an `int` index, "throws" iff the index is outside `0 ≤ index < size` -/
 
 /-- the meaning every slot range test must have -/
